@@ -108,6 +108,7 @@ def run(plan, prop=None):
   tau = 0.0
   w_full = np.zeros(n)
   lossless = True
+  dead = False
   for t in range(T):
     ctx.op_index = t
     g = G[t]
@@ -119,6 +120,20 @@ def run(plan, prop=None):
     states.append(cur)
     w = cur['w'].reshape(-1)
     ctx.saw_op('STEP')
+    bad = [k_ for k_, v_ in cur.items() if not np.all(np.isfinite(v_))]
+    if bad and np.all(np.isfinite(g)) and (delta > 0 or plan['alg'] in (
+        'OGD', 'ADA')):
+      # finite gradients, positive regularisation: the state must stay finite
+      ctx.violate('state_finite', mk, 'nonfinite_state_for_finite_gradients',
+                  tick=t, leaves=bad)
+      ctx.ev('state_finite', 'violation')
+      dead = True
+    if bad:
+      ctx.ev('state_finite', 'vacuous')
+      dead = True
+    if dead:
+      ctx.ticks += 1
+      continue
     tt = t + 1
     if plan['alg'] == 'OGD':
       w_ref = w_ref - lr * g / np.sqrt(tt + delta)
